@@ -162,7 +162,8 @@ def check_field_ops(ctx, P, backend, cfg):
         ctx.lost("limbpoly", "%s::mul_small" % B, "not found")
     fn = P.fn_opt("%s::square_repeatdly" % B)
     if fn is not None:
-        for n, spec in ((1, F * F), (2, F * F * F * F)):
+        # n = 0 is the identity (x^(2^0) = x): the two backends must agree on it too
+        for n, spec in ((0, F), (1, F * F), (2, F * F * F * F)):
             one_limbpoly(ctx, P, fn, spec, "f^(2^%d)" % n, W, inl, cfg, args=[None, ssa.C(n, "usize")], tag="(n=%d)" % n, inline_extra=lambda nm: nm.endswith("Fe::square"))
     else:
         ctx.lost("limbpoly", "%s::square_repeatdly" % B, "not found")
@@ -177,6 +178,11 @@ def one_limbpoly(ctx, P, fn, spec, what, W, inl, cfg, params=None, args=None, ta
         return
     ret = r.ret
     limbs = ret.get("0") if isinstance(ret, ssa.Agg) else None
+    if limbs is None and isinstance(ret, tuple) and ret[:2] == ("load", "arg1"):
+        # the result is an unmodified copy of *self (e.g. zero repetitions of a loop): its limbs are self's limbs
+        limbs = ssa.Agg()
+        for i in range(len(W)):
+            limbs[i] = ("load", "arg1.0[%d]" % i, 0)
     inst = "%s%s[%s]" % (fn.path, tag, cfg)
     if not isinstance(limbs, ssa.Agg):
         ctx.fail("limbpoly", inst, "cannot see the limbs of the result", where=fn.where(), key="limbpoly:%s%s" % (fn.path, tag))
